@@ -142,7 +142,15 @@ theorem T_C05 (v : Variant) (attr : Toks) (item : Item) (out : Out)
             constructor
             · simp [depsWithGenerics, liftedParams, hdc]
             · intro q hq; simpa [depsWithGenerics] using hq
-          refine ⟨by rw [htg.1]; simp, ?_⟩
+          have hl : ∀ q ∈ liftedParams false f.sig, q.isLifetime = false := by
+            intro q hq
+            simp only [liftedParams, List.mem_filter, Bool.and_eq_true, Bool.not_eq_true'] at hq
+            exact hq.2.1
+          have hf1 : (liftedParams false f.sig).filter GParam.isLifetime = [] :=
+            List.filter_eq_nil_iff.mpr (fun q hq => by simp [hl q hq])
+          have hf2 : (liftedParams false f.sig).filter (fun q => !q.isLifetime) = liftedParams false f.sig :=
+            List.filter_eq_self.mpr (fun q hq => by simp [hl q hq])
+          refine ⟨by rw [htg.1, hf1, hf2]; simp, ?_⟩
           simp only [wherePredsOk, List.isEmpty_nil, if_true]
           simpa [List.all_eq_true] using htg.2
     · simp
